@@ -325,12 +325,12 @@ func (c *Collection) WriteCas(key string, exp Exp, cas CAS, val any, opt sgbucke
 	err = c.withNewCas(func(txn *sql.Tx, newCas CAS) (*event, error) {
 		wasTombstone := false
 		var revSeqNo uint64
-		if cas != 0 {
-			row := txn.QueryRow("SELECT revSeqNo, tombstone FROM documents WHERE collection=? AND key=?", c.id, key)
-			err = scan(row, &revSeqNo, &wasTombstone)
-			if err != nil {
-				return nil, remapKeyError(err, key)
-			}
+		row := txn.QueryRow("SELECT revSeqNo, tombstone FROM documents WHERE collection=? AND key=?", c.id, key)
+		err = scan(row, &revSeqNo, &wasTombstone)
+		if err == sql.ErrNoRows && cas == 0 {
+			err = nil // inserting a new document
+		} else if err != nil {
+			return nil, remapKeyError(err, key)
 		}
 		revSeqNo++
 		exp = absoluteExpiry(exp)
